@@ -605,7 +605,26 @@ class Interp(_Interp):
             return App(f"meth:{name}", (recv, *[_h(a) for a in args], *[(k, _h(v)) for k, v in sorted(kwargs.items())]))
         if isinstance(recv, str):
             if name == "join":
-                kind, items = self.iterate(args[0], node, frame)
+                kind, items = self.iterate3(args[0], node, frame)
+                if kind == "seq" and not items.concrete:
+                    # known items at either end of a partially known sequence stay visible: join(unknown part) + sep + item + ...
+                    parts_ = list(items.parts)
+                    lead, trail = [], []
+                    while parts_ and parts_[0][0] == "item" and isinstance(parts_[0][1], (str, Term)):
+                        lead.append(parts_.pop(0)[1])
+                    while parts_ and parts_[-1][0] == "item" and isinstance(parts_[-1][1], (str, Term)):
+                        trail.insert(0, parts_.pop()[1])
+                    if (lead or trail) and not items.unordered:
+                        mid = App("meth:join", (recv, _h(Seq(parts_))))
+                        out_: list = []
+                        for x in [*lead, mid, *trail]:
+                            if out_:
+                                out_.append(recv)
+                            out_.append(x)
+                        return cat(*out_)
+                    kind, items = "havoc", App("seq", (_h(items),))
+                elif kind == "seq":
+                    kind, items = "concrete", items.items()
                 if kind != "concrete":
                     return App("meth:join", (recv, items))
                 parts: list = []
